@@ -1,20 +1,653 @@
-use mc::rgen::*;
-fn main() {
-    for tier in [Tier::Compact, Tier::Quick, Tier::Thorough] {
-        let t0 = std::time::Instant::now();
-        let mut tot = (0u64, 0u64, 0u64);
-        for g in generators() {
-            let (mut v, mut r, mut a) = (0u64, 0u64, 0u64);
-            let mut bytes = 0usize;
-            let n = g.run(tier, 0, 1, &mut |ev| match ev {
-                Event::Value(x) => { v += 1; bytes += x.wire.len(); }
-                Event::Refused { .. } => r += 1,
-                Event::AcceptedUnrepresentable { desc, why, .. } => { a += 1; if a < 3 { println!("  ACC-UNREP {desc}: {why}"); } }
-                Event::CtorPanic { desc, msg, representable, .. } => { a += 1; if a < 3 { println!("  PANIC {desc}: {msg} rep={representable}"); } }
-            });
-            println!("{tier:?} {:10} cand={n} values={v} refused={r} anomalies={a} bytes={bytes}", g.mnemonic);
-            tot.0 += v; tot.1 += r; tot.2 += a;
-        }
-        println!("{tier:?} total {tot:?} in {:?}", t0.elapsed());
+//! C05 — record data of every type survives compose/parse; lengths are
+//! exact; the canonical form lower-cases exactly the RFC 4034 §6.2 /
+//! RFC 6840 §5.1 names.
+//!
+//! Three exhaustive enumerations (engine: `gramx`):
+//!
+//! 1. VALUES: for every record type the full product of per-field boundary
+//!    menus (generator: `mc::rgen`), each value carrying an independent
+//!    reference encoding written from the RFC layouts.
+//! 2. OPTIONS: every EDNS option type with boundary values, through
+//!    `Opt::push`, `OptBuilder` and `AllOptData`.
+//! 3. BYTES: per record type all RDATA octet strings derivable from a
+//!    field-byte grammar (every internal length field short / exact /
+//!    long, names literal / compressed / upper-case / truncated / bad
+//!    pointer, trailing garbage), placed into a message.
+//!
+//! Oracle per value v: compose_rdata(v) == reference; rdlen == octets
+//! written; parse(compose(v)) == v (stand-alone parser and through whole
+//! messages built on a plain target and on the three compressing targets,
+//! with and without the embedded names already present); RDLENGTH in the
+//! message == octets that follow; names compressed only in RFC 3597 §4
+//! well-known types; canonical form == reference with exactly the
+//! RFC 4034 §6.2 + RFC 6840 §5.1 names lower-cased; unknown types carried
+//! unchanged. Oracle per accepted byte string b:
+//! parse(compose(parse(b))) == parse(b).
+
+use domain::base::iana::{Class, Rtype};
+use domain::base::message::Message;
+use domain::base::message_builder::{
+    HashCompressor, MessageBuilder, StaticCompressor, TreeCompressor,
+};
+use domain::base::name::{Name, ParsedName};
+use domain::base::opt::{AllOptData, ComposeOptData, Opt, OptData};
+use domain::base::rdata::{ComposeRecordData, ParseAnyRecordData, RecordData};
+use domain::base::wire::Composer;
+use domain::base::{Record, Ttl};
+use domain::rdata::AllRecordData;
+use mc::rgen::{self, Event, Rd, Tier, Value};
+use mc::wire as w;
+use mc::*;
+use octseq::Parser;
+use rayon::prelude::*;
+use serde_json::{json, Value as J};
+use std::collections::BTreeMap;
+use std::sync::Arc;
+
+//------------ tables written from the RFCs -----------------------------------
+
+/// RFC 4034 §6.2 item 3: "if the type of the RR is NS, MD, MF, CNAME, SOA,
+/// MB, MG, MR, PTR, HINFO, MINFO, MX, HINFO, RP, AFSDB, RT, SIG, PX, NXT,
+/// NAPTR, KX, SRV, DNAME, A6, RRSIG, or NSEC, all uppercase US-ASCII
+/// letters in the DNS names contained within the RDATA are replaced by the
+/// corresponding lowercase US-ASCII letters".
+/// RFC 6840 §5.1: NSEC is removed ("DNS names in the RDATA section of NSEC
+/// resource records are not converted to lowercase"), RRSIG stays ("DNS
+/// names in the RDATA section of RRSIG resource records are converted to
+/// lowercase"), HINFO contains no names.
+const CANONICAL_LOWERCASE: &[u16] = &[
+    2,  // NS
+    3,  // MD
+    4,  // MF
+    5,  // CNAME
+    6,  // SOA
+    7,  // MB
+    8,  // MG
+    9,  // MR
+    12, // PTR
+    14, // MINFO
+    15, // MX
+    17, // RP
+    18, // AFSDB
+    21, // RT
+    24, // SIG
+    26, // PX
+    30, // NXT
+    35, // NAPTR
+    36, // KX
+    33, // SRV
+    39, // DNAME
+    38, // A6
+    46, // RRSIG
+];
+
+/// RFC 3597 §4: "only the RR types defined in [RFC1035] are to be
+/// considered well-known" and only those may have compressed names in
+/// their RDATA when sent. RFC 1035 types with embedded names:
+const MAY_COMPRESS: &[u16] = &[
+    2,  // NS
+    3,  // MD
+    4,  // MF
+    5,  // CNAME
+    6,  // SOA
+    7,  // MB
+    8,  // MG
+    9,  // MR
+    12, // PTR
+    14, // MINFO
+    15, // MX
+];
+
+fn type_label(mn: &str) -> &str {
+    if mn.starts_with("TYPE") {
+        "UNKNOWN"
+    } else {
+        mn
     }
 }
+
+//------------ local statistics ------------------------------------------------
+
+#[derive(Default)]
+struct Local {
+    c: BTreeMap<String, u64>,
+    evals: u64,
+    distinct: Vec<u64>,
+}
+
+impl Local {
+    fn inc(&mut self, k: impl Into<String>) {
+        *self.c.entry(k.into()).or_insert(0) += 1;
+    }
+    fn ev(&mut self) {
+        self.evals += 1;
+    }
+}
+
+struct Env {
+    ctx: Arc<Ctx>,
+    stats: Stats,
+    tier: Tier,
+}
+
+fn tier_name(t: Tier) -> &'static str {
+    match t {
+        Tier::Compact => "compact",
+        Tier::Quick => "quick",
+        Tier::Thorough => "thorough",
+    }
+}
+
+impl Env {
+    fn viol(&self, sig: String, what: String, case: J) {
+        self.ctx.violation(&sig, &what, case);
+    }
+    fn value_case(&self, v: &Value) -> J {
+        json!({"kind": "value", "type": v.mnemonic, "tier": tier_name(self.tier), "index": v.index, "desc": v.desc,
+               "reference_rdata_len": v.wire.len(), "reference_rdata_head": hex(&v.wire[..v.wire.len().min(64)])})
+    }
+}
+
+//------------ helpers around the subject ---------------------------------------
+
+fn compose_vec<D: ComposeRecordData>(d: &D) -> Result<Vec<u8>, String> {
+    guard(|| {
+        let mut t = Vec::new();
+        d.compose_rdata(&mut t).map(|_| t).map_err(|_| "append error".to_string())
+    })
+    .and_then(|r| r)
+}
+
+fn compose_canonical_vec<D: ComposeRecordData>(d: &D) -> Result<Vec<u8>, String> {
+    guard(|| {
+        let mut t = Vec::new();
+        d.compose_canonical_rdata(&mut t).map(|_| t).map_err(|_| "append error".to_string())
+    })
+    .and_then(|r| r)
+}
+
+type PRd<'a> = AllRecordData<&'a [u8], ParsedName<&'a [u8]>>;
+
+/// Parse stand-alone RDATA with a parser limited to exactly these octets.
+fn parse_alone(rtype: u16, octets: &[u8]) -> Result<Result<(PRd<'_>, usize), String>, String> {
+    guard(|| {
+        let mut p = Parser::from_ref(octets);
+        match PRd::parse_any_rdata(Rtype::from_int(rtype), &mut p) {
+            Ok(d) => Ok((d, p.remaining())),
+            Err(e) => Err(e.to_string()),
+        }
+    })
+}
+
+fn lowercase_names(wire: &[u8], names: &[(usize, usize)]) -> Vec<u8> {
+    let mut out = wire.to_vec();
+    for &(off, len) in names {
+        // lower-case label contents only (length octets are < 64 anyway)
+        let mut p = off;
+        while p < off + len {
+            let l = out[p] as usize;
+            for b in &mut out[p + 1..p + 1 + l] {
+                b.make_ascii_lowercase();
+            }
+            p += 1 + l;
+        }
+    }
+    out
+}
+
+fn first_diff(a: &[u8], b: &[u8]) -> String {
+    if a.len() != b.len() {
+        let p = a.iter().zip(b).position(|(x, y)| x != y).unwrap_or(a.len().min(b.len()));
+        format!("length {} vs {} (first difference at {p})", a.len(), b.len())
+    } else {
+        let p = a.iter().zip(b).position(|(x, y)| x != y).unwrap_or(0);
+        format!("same length {}, first difference at octet {p}: {:02x} vs {:02x}", a.len(), a[p], b[p])
+    }
+}
+
+/// Structural cause hints for known-suspicious value shapes, so that one
+/// defect maps to one signature.
+fn cause_hint(v: &Value) -> &'static str {
+    match v.mnemonic {
+        "ZONEMD" if v.wire.len() < 6 + 12 => "digest-shorter-than-12",
+        "IPSECKEY" if v.desc.contains("key=[0B]") && !v.desc.contains(",alg=0,") => "algorithm-nonzero-and-key-empty",
+        "TXT" if v.wire.is_empty() => "no-character-string",
+        "CAA" if v.desc.contains("=<0B>") => "empty-tag",
+        _ => "",
+    }
+}
+
+fn err_class(e: &str) -> String {
+    e.chars().take(48).collect()
+}
+
+//------------ the value oracle ---------------------------------------------------
+
+#[derive(Clone, Copy, PartialEq, Eq, Debug)]
+enum Target {
+    Plain,
+    Static,
+    Tree,
+    Hash,
+}
+
+const OWNER: &[u8] = b"\x01a\x00";
+
+/// Build a message: optional preamble (a question per distinct embedded
+/// name plus an NS record holding the first embedded name), then the record
+/// under test as last record of the answer section.
+fn build_message(v: &Rd, target: Target, preamble: &[Vec<u8>]) -> Result<Result<Vec<u8>, String>, String> {
+    fn go<T: Composer + AsRef<[u8]>>(t: T, v: &Rd, preamble: &[Vec<u8>], fin: fn(T) -> Vec<u8>) -> Result<Vec<u8>, String> {
+        let mb = MessageBuilder::from_target(t).map_err(|_| "from_target".to_string())?;
+        let mut q = mb.question();
+        for n in preamble {
+            let name = Name::from_octets(n.as_slice()).map_err(|e| e.to_string())?;
+            q.push((name, Rtype::A)).map_err(|e| format!("push question: {e}"))?;
+        }
+        let mut a = q.answer();
+        let owner = Name::from_octets(OWNER).unwrap();
+        if let Some(n) = preamble.first() {
+            let name = Name::from_octets(n.as_slice()).map_err(|e| e.to_string())?;
+            a.push((owner.clone(), 60u32, domain::rdata::Ns::new(name))).map_err(|e| format!("push preamble: {e}"))?;
+        }
+        a.push(Record::new(owner, Class::IN, Ttl::from_secs(3600), v)).map_err(|e| format!("push: {e}"))?;
+        Ok(fin(a.finish()))
+    }
+    guard(|| match target {
+        Target::Plain => go(Vec::new(), v, preamble, |t| t),
+        Target::Static => go(StaticCompressor::new(Vec::new()), v, preamble, |t| t.into_target()),
+        Target::Tree => go(TreeCompressor::new(Vec::new()), v, preamble, |t| t.into_target()),
+        Target::Hash => go(HashCompressor::new(Vec::new()), v, preamble, |t| t.into_target()),
+    })
+}
+
+fn check_value(env: &Env, v: &Value, lc: &mut Local) {
+    let t = type_label(v.mnemonic);
+    let case = || env.value_case(v);
+    lc.inc(format!("{}:generated", v.mnemonic));
+    let hint = cause_hint(v);
+
+    // 1. compose == independent reference
+    lc.ev();
+    let c = match compose_vec(&v.data) {
+        Ok(c) => c,
+        Err(e) => {
+            env.viol(format!("C05|{t}|compose_rdata|panic|{}", panic_class(&e)), format!("compose_rdata panicked on {}: {e}", v.desc), case());
+            return;
+        }
+    };
+    if c != v.wire {
+        env.viol(
+            format!("C05|{t}|compose_rdata|differs-from-rfc-reference-encoding|{}", if c.len() != v.wire.len() { "length" } else { "content" }),
+            format!("compose_rdata of {} differs from the reference encoding: {}", v.desc, first_diff(&c, &v.wire)),
+            case(),
+        );
+        return;
+    }
+
+    // 2. advertised length
+    lc.ev();
+    match guard(|| (v.data.rdlen(false), v.data.rdlen(true))) {
+        Err(e) => {
+            env.viol(format!("C05|{t}|rdlen|panic|{}", panic_class(&e)), format!("rdlen panicked on {}: {e}", v.desc), case());
+            return;
+        }
+        Ok((plain, compressed)) => {
+            match plain {
+                Some(n) if n as usize != c.len() => {
+                    env.viol(format!("C05|{t}|rdlen(false)|advertised!=written"), format!("rdlen(false)={n} but compose_rdata wrote {} octets for {}", c.len(), v.desc), case());
+                    return;
+                }
+                Some(_) => lc.inc(format!("{}:rdlen-some", v.mnemonic)),
+                None => lc.inc(format!("{}:rdlen-none", v.mnemonic)),
+            }
+            if let Some(n) = compressed {
+                // a fixed length is advertised even for compressing targets:
+                // then nothing may be compressed
+                if n as usize != c.len() {
+                    env.viol(format!("C05|{t}|rdlen(true)|advertised!=uncompressed-length"), format!("rdlen(true)={n}, uncompressed {} for {}", c.len(), v.desc), case());
+                }
+            }
+        }
+    }
+    // length-prefixed forms
+    lc.ev();
+    for canonical in [false, true] {
+        let r = guard(|| {
+            let mut tgt = Vec::new();
+            let r = if canonical { v.data.compose_canonical_len_rdata(&mut tgt) } else { v.data.compose_len_rdata(&mut tgt) };
+            r.map(|_| tgt).map_err(|_| ())
+        });
+        let op = if canonical { "compose_canonical_len_rdata" } else { "compose_len_rdata" };
+        match r {
+            Ok(Ok(b)) => {
+                if b.len() < 2 || u16::from_be_bytes([b[0], b[1]]) as usize != b.len() - 2 || b.len() - 2 != c.len() {
+                    env.viol(format!("C05|{t}|{op}|prefix!=octets-that-follow"), format!("{op}: prefix {:?}, {} octets follow, for {}", &b[..b.len().min(2)], b.len().saturating_sub(2), v.desc), case());
+                }
+            }
+            Ok(Err(())) => env.viol(format!("C05|{t}|{op}|append-error-on-vec"), v.desc.clone(), case()),
+            Err(e) => env.viol(format!("C05|{t}|{op}|panic|{}", panic_class(&e)), format!("{op} panicked on {}: {e}", v.desc), case()),
+        }
+    }
+
+    // 3. canonical form
+    lc.ev();
+    let expect_canon = if CANONICAL_LOWERCASE.contains(&v.rtype) { lowercase_names(&v.wire, &v.names) } else { v.wire.clone() };
+    match compose_canonical_vec(&v.data) {
+        Err(e) => env.viol(format!("C05|{t}|compose_canonical_rdata|panic|{}", panic_class(&e)), format!("{}: {e}", v.desc), case()),
+        Ok(cc) => {
+            if cc != expect_canon {
+                let kind = if cc == v.wire {
+                    "names-not-lowercased-but-rfc4034-6.2-lists-type"
+                } else if cc == lowercase_names(&v.wire, &v.names) {
+                    "names-lowercased-but-type-not-in-rfc4034-6.2+rfc6840-5.1-list"
+                } else {
+                    "differs-otherwise"
+                };
+                env.viol(format!("C05|{t}|compose_canonical_rdata|{kind}"), format!("canonical form of {}: {}", v.desc, first_diff(&cc, &expect_canon)), case());
+            } else if expect_canon != v.wire {
+                lc.inc(format!("{}:canonical-lowercased", v.mnemonic));
+            }
+        }
+    }
+
+    // 4. parse(compose(v)) == v, stand-alone
+    lc.ev();
+    let mut ok = false;
+    match parse_alone(v.rtype, &c) {
+        Err(e) => env.viol(format!("C05|{t}|parse|panic|{}", panic_class(&e)), format!("parsing own compose of {} panicked: {e}", v.desc), case()),
+        Ok(Err(e)) => env.viol(
+            format!("C05|{t}|parse(compose(v))|rejected|{}|{hint}", err_class(&e)),
+            format!("the parser rejects what compose_rdata wrote for the constructor-accepted value {}: {e}", v.desc),
+            case(),
+        ),
+        Ok(Ok((p, remaining))) => {
+            let eq = guard(|| (p == v.data, v.data == p, p.rtype().to_int()));
+            match eq {
+                Err(e) => env.viol(format!("C05|{t}|eq|panic|{}", panic_class(&e)), format!("{}: {e}", v.desc), case()),
+                Ok((a, b, rt)) => {
+                    if remaining != 0 {
+                        env.viol(format!("C05|{t}|parse(compose(v))|octets-left-unparsed"), format!("{remaining} octets left for {}", v.desc), case());
+                    } else if !a || !b {
+                        env.viol(format!("C05|{t}|parse(compose(v))|not-equal|{hint}"), format!("parse(compose(v)) != v for {} (p==v:{a}, v==p:{b}); parsed: {:?}", v.desc, p), case());
+                    } else if rt != v.rtype {
+                        env.viol(format!("C05|{t}|parse(compose(v))|rtype-changed"), format!("rtype {rt} for {}", v.desc), case());
+                    } else if v.mnemonic.starts_with("TYPE") && !matches!(p, AllRecordData::Unknown(_)) {
+                        env.viol(format!("C05|{t}|parse(compose(v))|unknown-type-not-opaque"), format!("{}: {:?}", v.desc, p), case());
+                    } else {
+                        match compose_vec(&p) {
+                            Ok(c2) if c2 == c => ok = true,
+                            Ok(c2) => env.viol(format!("C05|{t}|compose(parse(compose(v)))|octets-changed"), format!("{}: {}", v.desc, first_diff(&c2, &c)), case()),
+                            Err(e) => env.viol(format!("C05|{t}|compose(parsed)|panic|{}", panic_class(&e)), format!("{}: {e}", v.desc), case()),
+                        }
+                    }
+                }
+            }
+        }
+    }
+    if !ok {
+        return;
+    }
+    lc.inc(format!("{}:roundtripped", v.mnemonic));
+    if !v.wire.is_empty() {
+        let mut key = v.rtype.to_be_bytes().to_vec();
+        key.extend_from_slice(&v.wire);
+        lc.distinct.push(fnv(&key));
+    }
+
+    // 4b. the same value through the ZoneRecordData dispatch
+    {
+        let z: Result<rgen::ZRd, Rd> = v.data.clone().into();
+        if let Ok(z) = z {
+            lc.ev();
+            let r = guard(|| -> Result<(), String> {
+                let mut t1 = Vec::new();
+                z.compose_rdata(&mut t1).map_err(|_| "append")?;
+                if t1 != c {
+                    return Err(format!("compose_rdata differs: {}", first_diff(&t1, &c)));
+                }
+                let mut t2 = Vec::new();
+                z.compose_canonical_rdata(&mut t2).map_err(|_| "append")?;
+                if t2 != expect_canon {
+                    return Err(format!("compose_canonical_rdata differs: {}", first_diff(&t2, &expect_canon)));
+                }
+                if z.rdlen(false) != v.data.rdlen(false) || z.rdlen(true) != v.data.rdlen(true) {
+                    return Err("rdlen differs from AllRecordData".into());
+                }
+                let mut p = Parser::from_ref(c.as_slice());
+                use domain::base::rdata::ParseRecordData;
+                let pz = domain::rdata::ZoneRecordData::<&[u8], ParsedName<&[u8]>>::parse_rdata(Rtype::from_int(v.rtype), &mut p)
+                    .map_err(|e| format!("parse_rdata: {e}"))?
+                    .ok_or("parse_rdata returned None")?;
+                if p.remaining() != 0 {
+                    return Err("octets left unparsed".into());
+                }
+                if !(pz == z && z == pz) {
+                    return Err("parse(compose(z)) != z".into());
+                }
+                if pz.rtype().to_int() != v.rtype {
+                    return Err("rtype changed".into());
+                }
+                Ok(())
+            });
+            match r {
+                Ok(Ok(())) => lc.inc(format!("{}:zone-roundtripped", v.mnemonic)),
+                Ok(Err(e)) => env.viol(format!("C05|{t}|ZoneRecordData|{}", e.split(':').next().unwrap_or("")), format!("{}: {e}", v.desc), case()),
+                Err(e) => env.viol(format!("C05|{t}|ZoneRecordData|panic|{}", panic_class(&e)), format!("{}: {e}", v.desc), case()),
+            }
+        }
+    }
+
+    // 5. whole messages
+    let mut embedded: Vec<Vec<u8>> = Vec::new();
+    for &(off, len) in &v.names {
+        let n = v.wire[off..off + len].to_vec();
+        if n.len() > 1 && !embedded.contains(&n) {
+            embedded.push(n);
+        }
+    }
+    let pre_len: usize = embedded.iter().map(|n| n.len() + 4).sum::<usize>() + embedded.first().map(|n| 3 + 10 + n.len()).unwrap_or(0);
+    if 12 + pre_len + OWNER.len() + 10 + v.wire.len() > 65535 {
+        lc.inc(format!("{}:message-skipped-over-65535", v.mnemonic));
+        return;
+    }
+    let configs: &[(Target, bool)] = &[
+        (Target::Plain, false),
+        (Target::Static, false),
+        (Target::Static, true),
+        (Target::Tree, true),
+        (Target::Hash, true),
+        (Target::Plain, true),
+    ];
+    for &(target, with_pre) in configs {
+        if with_pre && embedded.is_empty() && target != Target::Static {
+            continue;
+        }
+        lc.ev();
+        let cfg = format!("{target:?}{}", if with_pre { "+names-present" } else { "" });
+        let pre: &[Vec<u8>] = if with_pre { &embedded } else { &[] };
+        let msg = match build_message(&v.data, target, pre) {
+            Err(e) => {
+                env.viol(format!("C05|{t}|message-push|panic|{}", panic_class(&e)), format!("[{cfg}] {}: {e}", v.desc), case());
+                continue;
+            }
+            Ok(Err(e)) => {
+                env.viol(format!("C05|{t}|message-push|refused"), format!("[{cfg}] pushing {} failed: {e}", v.desc), case());
+                continue;
+            }
+            Ok(Ok(m)) => m,
+        };
+        check_message(env, v, &msg, target, &cfg, lc);
+    }
+}
+
+/// Independent look at the message, then the library's reading of it.
+fn check_message(env: &Env, v: &Value, msg: &[u8], target: Target, cfg: &str, lc: &mut Local) {
+    let t = type_label(v.mnemonic);
+    let case = || {
+        let mut c = env.value_case(v);
+        c["config"] = json!(cfg);
+        if msg.len() <= 2048 {
+            c["message"] = json!(hex(msg));
+        }
+        c
+    };
+    let raw = match w::read_message(msg) {
+        Ok(r) => r,
+        Err(e) => {
+            env.viol(format!("C05|{t}|message|independent-reader-rejects"), format!("[{cfg}] {}: {e}", v.desc), case());
+            return;
+        }
+    };
+    let rec = match raw.sections[0].last() {
+        Some(r) => r,
+        None => {
+            env.viol(format!("C05|{t}|message|record-missing"), format!("[{cfg}] {}", v.desc), case());
+            return;
+        }
+    };
+    // RDLENGTH == octets that follow (the record is the last thing written)
+    if raw.end != msg.len() || rec.rtype != v.rtype {
+        env.viol(
+            format!("C05|{t}|message|rdlength!=octets-that-follow"),
+            format!("[{cfg}] {}: RDLENGTH {} but {} octets follow the RDLENGTH field (type {})", v.desc, rec.rdata.len(), msg.len() - rec.rdata_pos, rec.rtype),
+            case(),
+        );
+        return;
+    }
+    // walk the RDATA against the reference: non-name octets identical,
+    // names equal; compression only where RFC 3597 §4 allows it
+    let mut wo = 0usize; // offset in reference
+    let mut mo = rec.rdata_pos; // offset in message
+    let mut compressed_any = false;
+    let mut bad: Option<String> = None;
+    for &(off, len) in &v.names {
+        let lit = off - wo;
+        if msg.get(mo..mo + lit) != Some(&v.wire[wo..off]) {
+            bad = Some(format!("octets before the name at reference offset {off} differ"));
+            break;
+        }
+        mo += lit;
+        let mut ptrs = Vec::new();
+        match w::read_name(msg, mo, &mut ptrs) {
+            Err(e) => {
+                bad = Some(format!("name at message offset {mo} unreadable: {e}"));
+                break;
+            }
+            Ok((labels, next)) => {
+                let expect = w::validate_name(&v.wire[off..off + len], true).expect("reference name");
+                if ptrs.is_empty() {
+                    if labels != expect {
+                        bad = Some(format!("uncompressed name at reference offset {off} differs"));
+                        break;
+                    }
+                } else {
+                    compressed_any = true;
+                    if !w::labels_eq_ci(&labels, &expect) {
+                        bad = Some(format!("compressed name at reference offset {off} expands to a different name"));
+                        break;
+                    }
+                }
+                mo = next;
+                wo = off + len;
+            }
+        }
+    }
+    if bad.is_none() && msg.get(mo..) != Some(&v.wire[wo..]) {
+        bad = Some("octets after the last name differ".into());
+    }
+    if let Some(b) = bad {
+        env.viol(format!("C05|{t}|message|rdata-differs-from-reference"), format!("[{cfg}] {}: {b}", v.desc), case());
+        return;
+    }
+    if compressed_any {
+        lc.inc(format!("{}:compressed[{cfg}]", v.mnemonic));
+        if target == Target::Plain {
+            env.viol(format!("C05|{t}|message|name-compressed-on-non-compressing-target"), format!("[{cfg}] {}", v.desc), case());
+        } else if !MAY_COMPRESS.contains(&v.rtype) {
+            env.viol(
+                format!("C05|{t}|message|name-compressed-in-type-outside-rfc3597-4-well-known-list"),
+                format!("[{cfg}] {}: a domain name inside the RDATA was written as a compression pointer; RFC 3597 §4 allows that only for types defined in RFC 1035", v.desc),
+                case(),
+            );
+        }
+    }
+    // the library reads it back
+    let r = guard(|| -> Result<(bool, bool), String> {
+        let m = Message::from_octets(msg).map_err(|e| format!("from_octets: {e}"))?;
+        let last = m.answer().map_err(|e| format!("answer(): {e}"))?.last().ok_or("no record")?.map_err(|e| format!("record: {e}"))?;
+        let rec = last.to_any_record::<PRd>().map_err(|e| format!("to_any_record: {e}"))?;
+        Ok((rec.data() == &v.data, &v.data == rec.data()))
+    });
+    match r {
+        Err(e) => env.viol(format!("C05|{t}|message-read|panic|{}", panic_class(&e)), format!("[{cfg}] {}: {e}", v.desc), case()),
+        Ok(Err(e)) => env.viol(format!("C05|{t}|message-read|rejected|{}", err_class(&e)), format!("[{cfg}] {}: {e}", v.desc), case()),
+        Ok(Ok((a, b))) => {
+            if !a || !b {
+                env.viol(format!("C05|{t}|message-read|not-equal"), format!("[{cfg}] record read back != pushed value for {}", v.desc), case());
+            } else {
+                lc.inc(format!("{}:message-roundtrips", v.mnemonic));
+            }
+        }
+    }
+}
+
+//------------ constructor anomalies ---------------------------------------------
+
+fn why_class(why: &str) -> String {
+    if why.starts_with("RDATA of") {
+        "rdata>65535".into()
+    } else if why.contains("longer than 255") {
+        format!("{}>255-octets", why.split(' ').next().unwrap_or("field").split('(').next().unwrap_or("field"))
+    } else if why.contains("longer than 65535") {
+        "field>65535".into()
+    } else {
+        why.chars().take(40).collect()
+    }
+}
+
+fn handle_event(env: &Env, ev: Event, lc: &mut Local) {
+    match ev {
+        Event::Value(v) => check_value(env, &v, lc),
+        Event::Refused { mnemonic, representable, error, .. } => {
+            lc.inc(format!("{mnemonic}:refused"));
+            if representable {
+                lc.inc(format!("{mnemonic}:refused-though-representable[{}]", err_class(&error)));
+            }
+        }
+        Event::CtorPanic { mnemonic, index, desc, msg, representable } => {
+            if representable {
+                env.viol(
+                    format!("C05|{}|constructor|panic|{}", type_label(mnemonic), panic_class(&msg)),
+                    format!("constructor panicked on the wire-representable {desc}: {msg}"),
+                    json!({"kind": "value", "type": mnemonic, "tier": tier_name(env.tier), "index": index, "desc": desc}),
+                );
+            } else {
+                lc.inc(format!("{mnemonic}:refused"));
+                lc.inc(format!("{mnemonic}:refused-by-documented-panic"));
+            }
+        }
+        Event::AcceptedUnrepresentable { mnemonic, rtype: _, index, desc, why, data } => {
+            lc.ev();
+            lc.inc(format!("{mnemonic}:accepted-unrepresentable"));
+            // what happens when it is used?
+            let rl = guard(|| data.rdlen(false));
+            let cl = guard(|| {
+                let mut t = Vec::new();
+                data.compose_len_rdata(&mut t).map(|_| t.len()).map_err(|_| ())
+            });
+            let t = type_label(mnemonic);
+            env.viol(
+                format!("C05|{t}|constructor|accepted-should-reject|{}", why_class(&why)),
+                format!(
+                    "the safe constructor accepts {desc} although it has no wire representation ({why}); rdlen(false) -> {}; compose_len_rdata -> {}",
+                    match rl { Ok(x) => format!("{x:?}"), Err(e) => format!("PANIC {e}") },
+                    match cl { Ok(x) => format!("{x:?}"), Err(e) => format!("PANIC {e}") },
+                ),
+                json!({"kind": "value", "type": mnemonic, "tier": tier_name(env.tier), "index": index, "desc": desc}),
+            );
+        }
+    }
+}
+
+include!("../c05_part2.rs");
